@@ -18,7 +18,7 @@ def one(name):
             return name, None, "patch does not apply: " + (r.stdout + r.stderr)[-200:]
         caught = {}
         for p in props:
-            env = dict(os.environ, RWS_REPO=repo, RWS_EVIDENCE_DIR=os.path.join(base, "ev"))
+            env = dict(os.environ, RWS_REPO=repo, RWS_EVIDENCE_DIR=os.path.join(base, "ev"), RWS_CACHE_DIR=os.path.join(base, "cache"), RWS_NO_THOROUGH="1")
             r = subprocess.run([V + "/check", p, "--tier", "quick"], cwd=V, env=env, capture_output=True, text=True)
             if r.returncode != 0:
                 keys = [l.strip()[5:] for l in r.stdout.splitlines() if l.strip().startswith("rule=")]
